@@ -12,6 +12,22 @@ from .common import SLOT
 from .flat import TRIGGER, canon_exc, make_exc, ename
 
 QMODES = (False, True, 'model')
+
+# callback kinds.  0-2 are (coroutine) FUNCTIONS; 3-5 are PLAIN callables that hand back an awaitable
+# which is not a coroutine: the library has to recognise them by `inspect.isawaitable`.
+K_PLAIN, K_CORO, K_SUSPEND, K_TASK, K_FUTURE, K_CUSTOM = range(6)
+KIND_NAMES = ['plain', 'coroutine', 'suspending', 'plain->Task', 'plain->Future', 'plain->__await__']
+CARRIER_KINDS = (K_CORO, K_SUSPEND, K_TASK, K_CUSTOM)      # kinds that can await triggers themselves
+
+
+class Later(object):
+    """a minimal awaitable that is neither a coroutine nor a Future"""
+
+    def __init__(self, coro):
+        self.coro = coro
+
+    def __await__(self):
+        return self.coro.__await__()
 COND_SLOTS = (SLOT['conditions'], SLOT['unless'])
 
 
@@ -37,12 +53,15 @@ def stage_lists(d):
     return out
 
 
-def decorate(d, rng, qmode=None, raise_in_stage=False, p_kind=(0.34, 0.33, 0.33), per_model_multi=False,
+def decorate(d, rng, qmode=None, raise_in_stage=False, p_kind=(0.25, 0.18, 0.18, 0.13, 0.13, 0.13), per_model_multi=False,
              keep_kinds=(TRIGGER,)):
     """Turn a generated FlatDesc into a C07 case (in place).
 
-    * kinds: every callback is a plain function (0), a coroutine function (1) or a coroutine function
-      that suspends once (2); a callback whose script awaits triggers cannot be a plain function.
+    * kinds: every callback and condition is a plain function (0), a coroutine function (1), a coroutine
+      function that suspends once (2), or a PLAIN callable handing back an awaitable that is not a
+      coroutine: an already scheduled `asyncio.Task` (3), a bare `Future` resolved by a later loop
+      callback (4), an object with `__await__` whose body suspends once (5).  A callback whose script
+      awaits triggers cannot be kind 0 or 4.
     * Solo: a callback that awaits triggers (has scripted commands) sits alone in its stage list; unless
       `raise_in_stage`, so does every callback that raises (the gather finding is judged separately).
     * conditions sharing a stage (>= 2 conditions/unless on one transition) are deterministic:
@@ -85,9 +104,14 @@ def decorate(d, rng, qmode=None, raise_in_stage=False, p_kind=(0.34, 0.33, 0.33)
     d.kinds = {}
     for c in sorted(d.cb_slot):
         r = rng.random()
-        k = 0 if r < p_kind[0] else (1 if r < p_kind[0] + p_kind[1] else 2)
-        if c in carriers and k == 0:
-            k = rng.choice((1, 2))
+        k, acc = len(p_kind) - 1, 0.0
+        for i, p in enumerate(p_kind):
+            acc += p
+            if r < acc:
+                k = i
+                break
+        if c in carriers and k not in CARRIER_KINDS:
+            k = rng.choice(CARRIER_KINDS)
         d.kinds[c] = k
     return d
 
@@ -153,8 +177,11 @@ class RecModel7(object):
         if name.startswith('cb_'):
             _, slot, cid = name.split('_')
             run = self._run
-            if run.is_async and run.d.kinds.get(int(cid), 0) >= 1:
+            kind = run.d.kinds.get(int(cid), 0) if run.is_async else 0
+            if kind in (K_CORO, K_SUSPEND):
                 return functools.partial(run.ainvoke, self, int(slot), int(cid))
+            if kind >= K_TASK:
+                return functools.partial(run.pinvoke, self, int(slot), int(cid))
             return functools.partial(run.invoke, self, int(slot), int(cid))
         raise AttributeError(name)
 
@@ -227,17 +254,44 @@ class Run7(flat.FlatRun):
             raise
         return self.finish(cid, out)
 
-    async def ainvoke(self, model, slot, cid, *args, **kwargs):
-        cmds, out = self.begin(model, slot, cid, args, kwargs)
+    async def rest(self, cid, cmds, out, suspend):
+        """what a callback does after its start was logged: await its triggers, maybe suspend once, finish"""
         try:
             for c in cmds:
                 await self.ado_cmd(c)
         except BaseException as e:
             self.items.append(('done', cid, 1) + canon_exc(e))
             raise
-        if self.d.kinds.get(cid, 0) >= 2:
+        if suspend:
             await asyncio.sleep(0)
         return self.finish(cid, out)
+
+    async def ainvoke(self, model, slot, cid, *args, **kwargs):
+        cmds, out = self.begin(model, slot, cid, args, kwargs)
+        return await self.rest(cid, cmds, out, self.d.kinds.get(cid, 0) == K_SUSPEND)
+
+    def pinvoke(self, model, slot, cid, *args, **kwargs):
+        """a PLAIN callable: logs its start when called and hands back an awaitable that is not a coroutine"""
+        cmds, out = self.begin(model, slot, cid, args, kwargs)
+        kind = self.d.kinds.get(cid, 0)
+        if kind == K_TASK:          # already scheduled; its body runs when the loop gets to it
+            return asyncio.ensure_future(self.rest(cid, cmds, out, False))
+        if kind == K_CUSTOM:        # body starts when awaited, suspends once
+            return Later(self.rest(cid, cmds, out, True))
+        if cmds:
+            raise common.MachineryError('future-kind callback %d carries commands' % cid)
+        loop = asyncio.get_running_loop()
+        fut = loop.create_future()
+
+        def resolve():
+            try:
+                v = self.finish(cid, out)
+            except BaseException as e:
+                fut.set_exception(e)
+            else:
+                fut.set_result(v)
+        loop.call_soon(resolve)
+        return fut
 
     # -- API calls ---------------------------------------------------------------------------
     async def ado_cmd(self, c):
